@@ -12,7 +12,7 @@ from ..driver import derive_seed
 
 ID = "C01"
 LEVEL = "exploration"
-BUDGET = {"quick": {"wall": 240, "task_timeout": 900}, "thorough": {"wall": 7200, "task_timeout": 3000}}
+BUDGET = {"quick": {"wall": 240, "task_timeout": 900}, "thorough": {"wall": 7200, "task_timeout": 7000}}
 RUNS = {"quick": 48, "thorough": 160}           # independent runs per variant
 Z_LIMIT = 7.0          # |difference| / standard error, frozen (see DESIGN.md section 9)
 EPS_REF = 2.5e-3       # resolution of the tabulated references / grid integration
@@ -28,15 +28,15 @@ RULE = ("for every algorithmic variant R independent seeded runs (random initial
         "disks), (3) all variants of one model against each other (five-atom systems with several event handlers "
         "per tagger only this way; the cell-veto water variants only this way and over one common time window with a "
         "variant of the same process in law, because two water molecules need several thousand time units to "
-        "equilibrate; the two cheap water variants against the table after a burn-in of 5000 time units); samples "
+        "equilibrate; the two cheap water variants against the table after a burn-in of 3000 time units); samples "
         "inside a hard core are violations "
         "outright; a variant is non-trivial if it contributed >= 2000 samples after burn-in")
 ASSUMPTIONS = ["statistical: effect sizes below about 7 standard errors (reported per variant) are invisible",
                "thresholds frozen: z-limit 7 on means over >= 48 independent runs, eps 2.5e-3",
                "harness pair systems use potentials negligible at half the box length and short chains",
                "burn-in: 30 samples (the two-particle systems in boxes of length 1 relax within a few samples); two "
-               "water molecules in a box of length 10: 1866 samples = 5000 time units (measured relaxation about 1000 "
-               "time units), cell-veto water variants are not compared with the table at all"]
+               "water molecules in a box of length 10: 1120 samples = 3000 time units (measured relaxation about 1000 "
+               "time units; a bound pair produces several times more events per time unit than the random start), cell-veto water variants are not compared with the table at all"]
 REAL_CODE = common.REAL_CODE + "; SeparationOutputHandler, BondLengthAndAngleOutputHandler, " \
                                "OxygenOxygenSeparationOutputHandler, PolarizationOutputHandler and the files they write"
 STUBBED = common.STUBBED
@@ -88,16 +88,16 @@ VARIANTS = {
     # two water molecules in a box of length 10: from the random initial configuration the pair needs several thousand
     # time units to reach the stationary distribution (measured: the CDF at the 0.75 level of the reference rises from
     # 0.1 to its plateau over about 3000 time units), so the comparison with the tabulated reference is made on
-    # long runs after a burn-in of 5000 time units (sampling interval 2.6789), for the two variants that are cheap
+    # runs of 6000 time units after a burn-in of 3000 (sampling interval 2.6789), for the two variants that are cheap
     # enough; the cell-veto variants are compared over the same (transient) time window with the cell-bounded variant,
     # which realises the same process in law (same factors, same lifting), and not with the table
     "water_pb_lj_inverted": {"base": P + "water/coulomb_power_bounded_lj_inverted.ini",
-                             "time": {"quick": 0, "thorough": 9000}, "group": "water",
-                             "runs": {"quick": 0, "thorough": 48}, "burn_in": 1866,
+                             "time": {"quick": 0, "thorough": 6000}, "group": "water",
+                             "runs": {"quick": 0, "thorough": 48}, "burn_in": 1120,
                              "obs": {"": "ref:" + P + "water/ReferenceOOSeparation.dat"}},
     "water_pb_lj_cell_bounded": {"base": P + "water/coulomb_power_bounded_lj_cell_bounded.ini",
-                                 "time": {"quick": 0, "thorough": 9000}, "group": "water",
-                                 "runs": {"quick": 0, "thorough": 48}, "burn_in": 1866,
+                                 "time": {"quick": 0, "thorough": 6000}, "group": "water",
+                                 "runs": {"quick": 0, "thorough": 48}, "burn_in": 1120,
                                  "obs": {"": "ref:" + P + "water/ReferenceOOSeparation.dat"}},
     "water_pb_lj_cell_bounded_transient": {"base": P + "water/coulomb_power_bounded_lj_cell_bounded.ini",
                                            "time": {"quick": 0, "thorough": 60}, "group": "water_transient",
